@@ -358,6 +358,23 @@ def r6(ctx):
                         if not any(repr(a) == repr(x) for (_b, x) in extra_conds):
                             extra_conds.append((b, a))
     if loops_back and not follows:
+        # the bound on the number of rounds is enough for every entry to be handed out once: entries / batch + k, k >= 1
+        counters = {estr(st.lhs) for st in f.events('STORE') if st.d['op'] in ('--', '-=') and unwrap(st.lhs).get('k') == 'var'}
+        used = {a.ls for b_ in f.blocks.values() if b_.cond is not None for lab_ in (True, False) for a in atoms_of(b_.cond, lab_) if a.ls in counters}
+        for cn in sorted(used):
+            for d in [st for st in f.events('STORE') if estr(st.lhs) == cn and st.d['op'] == '=']:
+                r = unwrap(d.rhs)
+                enough = False
+                if r.get('k') == 'bin' and r['op'] == '+':
+                    for (x, y) in ((r['l'], r['r']), (r['r'], r['l'])):
+                        xu = unwrap(x)
+                        if xu.get('k') == 'bin' and xu['op'] == '/' and cval(unwrap(xu['r'])) == capc and \
+                                any(n.get('k') == 'mem' and n.get('f') == 'poll_entry_count' for n in walk(xu['l'])) and (cval(unwrap(y)) or 0) >= 1:
+                            enough = True
+                ctx.check('R6', 'round-bound-covers-every-entry', enough, d,
+                          'the number of rounds is entries / %s + k: every entry can be handed out once' % capc,
+                          'the number of rounds is bounded by %s, which does not grow with the number of entries: with more than that many full batches of ready descriptors '
+                          'the rest wait for later iterations, so a ready descriptor of one level is reported only every few iterations and its level goes several turns without a dispatch' % estr(d.rhs))
         ctx.check('R6', 'driver-goes-round-whenever-the-batch-was-full', not extra_conds, w,
                   'the driver goes round again whenever the batch came back full (within its bound on the number of rounds)',
                   'the driver goes round again only if also %s: descriptors that are queued already fill a batch without adding jobs, so with a backlog the driver stops after one batch and a ready descriptor of another level reaches its level only every N/%s-th iteration'
